@@ -62,7 +62,7 @@ PROPS['C04'] = {
 PROPS['C16'] = {
     'title': 'Sorted-index iteration is complete and ordered',
     'modules': ['ColumnVerif.Props.C16', 'ColumnVerif.Props.C16store'],
-    'runs': [{'mode': 'store'}],
+    'runs': [{'mode': 'store'}, {'mode': 'sched'}],
     'trusted_base': STORE_TB + ["tidwall/btree is trusted to realise an ordered set for the comparator the code passes (the comparator itself is modelled)"],
     'assumptions': [
         "the index follows its string column under the guard 'no op follows a resizing merge on the same offset in one section' (finding D12)",
